@@ -10,7 +10,8 @@ import export as X
 import cert as C
 import gen as G
 
-THEOREMS = ["Adc.checkEquiv_sound", "Adc.symmetry_report_sound", "Adc.permTerm_eval", "Adc.canonTensor_sound"]
+THEOREMS = ["Adc.checkEquiv_sound", "Adc.symmetry_report_sound", "Adc.permTerm_eval", "Adc.canonTensor_sound",
+            "Adc.linearise_first_order", "Adc.evalObjs_varied", "Adc.evalTerm_varied"]
 SPL = {0: "g", 1: "o", 2: "v"}
 KNOWN_ASSUME = "remove_tensor:explicit-targets+several-terms+target-or-repeated-index-on-the-tensor->TypeError(assumptions)"
 
@@ -278,13 +279,19 @@ def one_case(ctx, it):
                         lhs.append((coef, (dT,) + tuple(objs), tuple(sorted(i for i in allx if i not in free))))
                 if good:
                     # first-order change of the input: every occurrence of the tensor replaced by dT once
-                    rhs = []
+                    # by the Lean model `linearise` (theorem linearise_first_order: its value is the first-order change);
+                    # the python loop is kept as a cross-check of the driver
+                    ans_l = ctx.drv().ask({"op": "linearise", "e": X.j_expr(x_in), "name": name, "dname": "dTq"})
+                    rhs = X.expr_from_json(ans_l["e"])
+                    rhs_py = []
                     for coef, objs, contr_ in x_in:
                         for k, o in enumerate(objs):
                             if o[0] == "T" and o[2] == name:
                                 o2 = list(objs)
                                 o2[k] = ("T", o[1], "dTq", o[3], o[4], o[5])
-                                rhs.append((coef, tuple(o2), contr_))
+                                rhs_py.append((coef, tuple(o2), contr_))
+                    if sorted(map(repr, rhs)) != sorted(map(repr, rhs_py)):
+                        ctx.count("info_linearise_python_vs_lean_differ(text)")
                     ctx.case(("derivative", str(e), name, tuple(map(str, tobj))), nontrivial=True)
                     ctx.count("derivative")
                     r = ctx.equiv(lhs, rhs, "derivative")
